@@ -119,10 +119,14 @@ def coq_prepare():
             raise RuntimeError("coq_makefile failed: " + e)
 
 
-def coq_make(targets=None, timeout=3000):
-    """make (full .vo build, never -vos).  Returns (ok, output)."""
+def coq_make(targets=None, timeout=3000, before=None):
+    """make (full .vo build, never -vos).  Returns (ok, output).  `before` runs inside the build lock
+    (prove() removes the compiled property file there, so that two concurrent runs of one check cannot
+    interleave 'remove, remove, make, make' and leave the second make with nothing to print)."""
     with Lock("coq"):
         coq_prepare()
+        if before is not None:
+            before()
         cmd = ["make", "-j16", "-k"] + (targets or [])
         rc, o, e = sh(cmd, cwd=COQ, timeout=timeout)
         return rc == 0, o + e
@@ -448,12 +452,13 @@ def prove(prop_id):
         res["ok"] = False
         res["problems"].append("missing " + vfile)
         return res
-    for ext in (".vo", ".vos", ".vok", ".glob"):
-        try:
-            os.remove(os.path.join(COQ, "theories", "Props", prop_id + ext))
-        except OSError:
-            pass
-    ok, out = coq_make([rel])
+    def forget():
+        for ext in (".vo", ".vos", ".vok", ".glob"):
+            try:
+                os.remove(os.path.join(COQ, "theories", "Props", prop_id + ext))
+            except OSError:
+                pass
+    ok, out = coq_make([rel], before=forget)
     res["log"] = out[-6000:]
     if not ok:
         res["ok"] = False
